@@ -133,23 +133,10 @@ def run(ctx, env):
             ok = bool(prim_ok and cok and cs[0]["fields"] == ["enterprise_number"])
             why = "enterprise_number = cond(%s, %s)" % (canon(c)[:120], term_s(inner)[:60])
         ctx.ob("R5.4", IP + "TemplateField", "enterprise-bit-condition", ok, why)
-    # R5.5 (shape shared with C07 R7.4)
-    ib = prog.body(IP + "IPFix::parse_be")
-    if ctx.anchor("R5.5", IP + "IPFix::parse_be", ib):
-        ok = False
-        for p, b in prog.bodies.items():
-            if not p.startswith(ib.path):
-                continue
-            for blk, t, c in b.calls():
-                if c is not None and c.npath == "nom::multi::many0":
-                    inner = peel(an.op(b, t["args"][0]))
-                    if inner[0] == "call" and inner[2] is not None and inner[2].npath == "nom::combinator::complete":
-                        clo = peel(inner[3][0], identity=(), casts=False)
-                        if clo[0] == "closure":
-                            cb = prog.body(clo[1])
-                            if cb and any(cc is not None and cc.local and cc.path.startswith(IP + "FlowSet::parse") for _, _, cc in cb.calls()):
-                                ok = True
-        ctx.ob("R5.5", ib.path, "sets-by-many0(complete(FlowSet::parse))", ok, "set repetition %s" % ("found" if ok else "not found"))
+    # R5.5 (shape shared with C07 R7.4; located anywhere on the parse path)
+    from . import c07 as _c07
+    ok55, why55 = _c07.ipfix_sets_many0_complete(prog, an, reach_bodies(prog, PARSE_ROOTS))
+    ctx.ob("R5.5", IP + "IPFix", "sets-by-many0(complete(FlowSet::parse))", ok55, why55)
     # R5.6 (form-independent, see records.py)
     from . import records
     Rd = records.decode_order_rule(ctx, prog, an, "R5.6", IP + "Data::parse_be", "ipfix")
